@@ -18,8 +18,8 @@ def lexPatterns : List (String × String) := [
   ("sqlserver_local_ident", "[\\$@-Z_a-zÀ-ÖØ-öø-ƿ][\\$0-9@-Z_a-zÀ-ÖØ-öø-ƿ]*"),
   ("delimiter_pattern", "^\\s*delimiter\\s+([^\\n]+)$"),
   ("delimiter_flags", "42"),
-  ("VALID", "^[a-zA-Z_]\\w*$"),
-  ("VALID_flags", "32")
+  ("VALID", "^[a-zA-Z_]\\w*\\Z"),
+  ("VALID_flags", "256")
 ]
 
 end MoSql.Ref
